@@ -210,6 +210,16 @@ def matchesDefault (ext : Ext) (v : Node) (d : PyDefault) : Bool :=
   | .seq _ xs _ => xs.toList.isEmpty && d == .emptyList   -- `[] == default`
   | .map _ ps _ => ps.toList.isEmpty && d == .emptyList
 
+/-- `introspection.defaulted_attributes(cls)`: the parameters that have a default, each with the
+value `_yatiml_defaults` gives for it if it names it, else its Python default.  Names in
+`_yatiml_defaults` that are not defaulted parameters are ignored. -/
+def defaultedAttributes (sig : List (String × Option PyDefault)) (user : List (String × PyDefault)) :
+    List (String × PyDefault) :=
+  sig.filterMap (fun e =>
+    match e.2 with
+    | none => none
+    | some d => some (e.1, match user.lookup e.1 with | some u => u | none => d))
+
 def removeDefaults (ext : Ext) (n : Node) (defaults : List (String × PyDefault)) : Except OpErr Node :=
   match n with
   | .map t ps m =>
